@@ -65,7 +65,10 @@ fn apply_and_check(opi: usize, form: u8, qa: crate::dynq::Q, qb: crate::dynq::Q)
     };
     let rt = c.ty(o.r);
     if r.1 >= rt.n_units {
-        return Err(Verdict::Fail(format!("{}: result unit is not a unit of the result quantity", note)));
+        // the type system guarantees a unit of the result type: this one is
+        // declared in /repo but not in the reference table (a unit added
+        // after the table was written) - outside the check
+        return Err(Verdict::Discard("result unit is not in the reference table"));
     }
     // a square of one object: `&x * &x` against `x * x'` of two equal values
     if o.is_mul && o.a == o.b {
